@@ -61,10 +61,12 @@ Definition at_mode (s : St) : Prop := forall pp, In pp pops -> get s pp = stat U
 
 (** [load_parameters] only assigns model parameters: settable, not population variables *)
 Definition params_ok (a : list (string * V)) : Prop := forall p v, In (p, v) a -> indep p = true /\ ~ In p pops.
-Definition event_ok (e : event) : Prop := match e with EvLoad a _ => params_ok a | EvFit _ => True end.
+Definition event_ok (e : event) : Prop := match e with EvLoad a _ => params_ok a | EvFit _ => True | EvRead _ => True end.
 (** the non-population values in force after event [e] started from [s]: the LAST parameters *)
 Definition after (e : event) (s : St) : string -> V :=
-  match e with EvLoad a _ => updl a (vals s) | EvFit body => vals (body s) end.
+  match e with EvLoad a _ => updl a (vals s) | EvFit body => vals (body s) | EvRead _ => vals s end.
+(** observers that only read, after the last load_parameters / fit *)
+Definition reads (rs : list (list string)) : list event := map (fun c => EvRead c) rs.
 
 (** ** fresh_model *)
 
@@ -202,13 +204,21 @@ Qed.
 
 (** ** one event *)
 
-Lemma event_vals e s : event_ok e -> exists y, run_event pops s e = Some y /\ forall m, vals y m = fresh_model (after e s) m.
+Lemma event_vals e s : event_ok e -> is_read e = false ->
+  exists y, run_event pops s e = Some y /\ forall m, vals y m = fresh_model (after e s) m.
 Proof.
-  destruct e as [a cmp|body]; intros Hok; cbn.
+  destruct e as [a cmp|body|cmp]; intros Hok Hr; cbn; [| |discriminate].
   - eexists. split; [reflexivity|]. now apply load_vals.
   - destruct (end_of_fit_installed V St get set clone stat vals eval indep prior_params fresh_reads set_vals clone_vals eval_indep
                 pops pops_nodup pops_indep stat_local prior_params_ok (body s)) as [y [E Hy]].
     exists y. split; [exact E|]. intros m. rewrite Hy. apply target_fresh.
+Qed.
+
+Lemma event_total e s : event_ok e -> exists y, run_event pops s e = Some y.
+Proof.
+  intros Hok. destruct (is_read e) eqn:Hr.
+  - destruct e; try discriminate. now exists s.
+  - destruct (event_vals e s Hok Hr) as (y & Hy & _). now exists y.
 Qed.
 
 (** ** histories, for any runner that leaves the same non-derived values as the scripts of Io/History.v *)
@@ -217,34 +227,53 @@ Variable rn : St -> event -> option St.
 Hypothesis rn_sim : forall s e, event_ok e ->
   exists x y, rn s e = Some x /\ run_event pops s e = Some y /\ forall m, vals x m = vals y m.
 
-Lemma rn_vals e s : event_ok e -> exists x, rn s e = Some x /\ forall m, vals x m = fresh_model (after e s) m.
+Lemma rn_vals e s : event_ok e -> is_read e = false -> exists x, rn s e = Some x /\ forall m, vals x m = fresh_model (after e s) m.
 Proof.
-  intros Hok. destruct (rn_sim s e Hok) as (x & y & Hx & Hy & Hxy). destruct (event_vals e s Hok) as (y' & Hy' & Hv).
+  intros Hok Hr. destruct (rn_sim s e Hok) as (x & y & Hx & Hy & Hxy). destruct (event_vals e s Hok Hr) as (y' & Hy' & Hv).
   exists x. split; [exact Hx|]. intros m. rewrite Hxy. assert (y = y') by congruence. subst. apply Hv.
+Qed.
+
+Lemma rn_total e s : event_ok e -> exists x, rn s e = Some x.
+Proof. intros Hok. destruct (rn_sim s e Hok) as (x & _ & Hx & _). now exists x. Qed.
+
+(** an observer leaves every non-derived value as it was *)
+Lemma rn_read c s : exists x, rn s (EvRead c) = Some x /\ forall m, vals x m = vals s m.
+Proof.
+  destruct (rn_sim s (EvRead c) I) as (x & y & Hx & Hy & Hxy). cbn in Hy. injection Hy as <-. now exists x.
 Qed.
 
 Lemma hist_total h : forall s, Forall event_ok h -> exists s', run_hist rn h s = Some s'.
 Proof.
   induction h as [|e r IH]; intros s Hh; cbn; [now exists s|]. inversion Hh as [|? ? He Hr]; subst.
-  destruct (rn_vals e s He) as (x & Hx & _). rewrite Hx. now apply IH.
+  destruct (rn_total e s He) as (x & Hx). rewrite Hx. now apply IH.
 Qed.
 
-Lemma hist_snoc h e : forall s, run_hist rn (h ++ [e]) s = match run_hist rn h s with Some s1 => rn s1 e | None => None end.
+Lemma hist_app h1 h2 : forall s, run_hist rn (h1 ++ h2) s = match run_hist rn h1 s with Some s1 => run_hist rn h2 s1 | None => None end.
 Proof.
-  induction h as [|e' r IH]; intros s; cbn; [now destruct (rn s e)|]. destruct (rn s e') as [x|]; [apply IH | reflexivity].
+  induction h1 as [|e' r IH]; intros s; cbn; [reflexivity|]. destruct (rn s e') as [x|]; [apply IH | reflexivity].
 Qed.
 
-Lemma hist_last h e s : Forall event_ok (h ++ [e]) ->
-  exists s1 s', run_hist rn h s = Some s1 /\ run_hist rn (h ++ [e]) s = Some s' /\ forall m, vals s' m = fresh_model (after e s1) m.
+Lemma reads_vals rs : forall s, exists s', run_hist rn (reads rs) s = Some s' /\ forall m, vals s' m = vals s m.
 Proof.
-  intros Hh. apply Forall_app in Hh. destruct Hh as [Hh He]. inversion He as [|? ? He' _]; subst.
-  destruct (hist_total h s Hh) as [s1 H1]. destruct (rn_vals e s1 He') as (x & Hx & Hv).
-  exists s1, x. split; [exact H1|]. split; [|exact Hv]. now rewrite hist_snoc, H1.
+  induction rs as [|c r IH]; intros s; cbn; [now exists s|].
+  destruct (rn_read c s) as (x & Hx & Hv). rewrite Hx. destruct (IH x) as (s' & Hs' & Hv'). exists s'.
+  split; [exact Hs'|]. intros m. now rewrite Hv', Hv.
 Qed.
 
-(** The statement of the property, for histories: after any sequence of load_parameters / fit ending with event [e] *)
-Theorem history_self_consistent h e s : Forall event_ok (h ++ [e]) ->
-  exists s1 s', run_hist rn h s = Some s1 /\ run_hist rn (h ++ [e]) s = Some s' /\
+Lemma hist_last h e rs s : Forall event_ok (h ++ [e]) -> is_read e = false ->
+  exists s1 s', run_hist rn h s = Some s1 /\ run_hist rn (h ++ e :: reads rs) s = Some s' /\
+    forall m, vals s' m = fresh_model (after e s1) m.
+Proof.
+  intros Hh Hr. apply Forall_app in Hh. destruct Hh as [Hh He]. inversion He as [|? ? He' _]; subst.
+  destruct (hist_total h s Hh) as [s1 H1]. destruct (rn_vals e s1 He' Hr) as (x & Hx & Hv).
+  destruct (reads_vals rs x) as (s' & Hs' & Hv').
+  exists s1, s'. split; [exact H1|]. split; [|intros m; now rewrite Hv', Hv]. rewrite hist_app, H1. cbn. now rewrite Hx.
+Qed.
+
+(** The statement of the property, for histories: after any sequence of load_parameters / fit / observers whose last
+    load_parameters-or-fit is [e] (followed by any number of observers) *)
+Theorem history_self_consistent h e rs s : Forall event_ok (h ++ [e]) -> is_read e = false ->
+  exists s1 s', run_hist rn h s = Some s1 /\ run_hist rn (h ++ e :: reads rs) s = Some s' /\
     (* every population variable is the mode of its prior, read in the final state ... *)
     at_mode s' /\
     (* ... whose parameters (settable, non-population values) are the LAST ones ... *)
@@ -252,29 +281,31 @@ Theorem history_self_consistent h e s : Forall event_ok (h ++ [e]) ->
     (* ... and every read — v0, mixing matrix, trajectories — is the from-scratch value of a fresh model under them *)
     (forall n, get s' n = eval (fresh_model (after e s1)) n).
 Proof.
-  intros Hh. destruct (hist_last h e s Hh) as (s1 & s' & H1 & H' & Hv). exists s1, s'.
+  intros Hh Hr. destruct (hist_last h e rs s Hh Hr) as (s1 & s' & H1 & H' & Hv). exists s1, s'.
   split; [exact H1|]. split; [exact H'|]. split; [exact (consistent_at_mode s' (consistent_of_vals s' _ Hv))|]. split.
   - intros q Hi Hn. now rewrite fresh_reads, eval_indep, Hv, fresh_model_nonpop.
   - intros n. rewrite fresh_reads. apply eval_ext. exact Hv.
 Qed.
 
 (** ... in particular after a last [load_parameters(a)]: the parameters are exactly the provided values *)
-Corollary history_last_load_params h a cmp s : Forall event_ok (h ++ [EvLoad a cmp]) -> NoDup (map fst a) ->
-  exists s', run_hist rn (h ++ [EvLoad a cmp]) s = Some s' /\ at_mode s' /\ forall p v, In (p, v) a -> get s' p = v.
+Corollary history_last_load_params h a cmp rs s : Forall event_ok (h ++ [EvLoad a cmp]) -> NoDup (map fst a) ->
+  exists s', run_hist rn (h ++ EvLoad a cmp :: reads rs) s = Some s' /\ at_mode s' /\ forall p v, In (p, v) a -> get s' p = v.
 Proof.
-  intros Hh ND. destruct (history_self_consistent h _ s Hh) as (s1 & s' & _ & H' & Hm & Hp & _). exists s'.
+  intros Hh ND. destruct (history_self_consistent h _ rs s Hh eq_refl) as (s1 & s' & _ & H' & Hm & Hp & _). exists s'.
   split; [exact H'|]. split; [exact Hm|]. intros p v Hin.
   apply Forall_app in Hh. destruct Hh as [_ He]. inversion He as [|? ? Ha _]; subst. destruct (Ha p v Hin) as [Hi Hn].
   rewrite (Hp p Hi Hn). cbn. now apply updl_in.
 Qed.
 
 (** Two model objects, any two pasts: if the LAST parameters (and the other non-population values) agree, every read agrees. *)
-Theorem history_independent h1 e1 s1 h2 e2 s2 : Forall event_ok (h1 ++ [e1]) -> Forall event_ok (h2 ++ [e2]) ->
+Theorem history_independent h1 e1 r1 s1 h2 e2 r2 s2 :
+  Forall event_ok (h1 ++ [e1]) -> is_read e1 = false -> Forall event_ok (h2 ++ [e2]) -> is_read e2 = false ->
   exists m1 m2 f1 f2, run_hist rn h1 s1 = Some m1 /\ run_hist rn h2 s2 = Some m2 /\
-    run_hist rn (h1 ++ [e1]) s1 = Some f1 /\ run_hist rn (h2 ++ [e2]) s2 = Some f2 /\
+    run_hist rn (h1 ++ e1 :: reads r1) s1 = Some f1 /\ run_hist rn (h2 ++ e2 :: reads r2) s2 = Some f2 /\
     ((forall q, ~ In q pops -> after e1 m1 q = after e2 m2 q) -> forall n, get f1 n = get f2 n).
 Proof.
-  intros H1 H2. destruct (hist_last h1 e1 s1 H1) as (m1 & f1 & A1 & B1 & V1). destruct (hist_last h2 e2 s2 H2) as (m2 & f2 & A2 & B2 & V2).
+  intros H1 R1 H2 R2. destruct (hist_last h1 e1 r1 s1 H1 R1) as (m1 & f1 & A1 & B1 & V1).
+  destruct (hist_last h2 e2 r2 s2 H2 R2) as (m2 & f2 & A2 & B2 & V2).
   exists m1, m2, f1, f2. repeat (split; [assumption|]). intros Hq n.
   apply consistent_independent; [exact (consistent_of_vals f1 _ V1) | exact (consistent_of_vals f2 _ V2)|].
   intros q Hn. now rewrite V1, V2, !fresh_model_nonpop, Hq.
@@ -282,14 +313,14 @@ Qed.
 
 (** load -> ... -> load_parameters(a) on an OLD model object reads like load_parameters(a) on a FRESH one [s0], as soon as
     what [a] does not provide (hyper-parameters, missing parameters, data) is the same in both. *)
-Corollary history_vs_fresh h a cmp s s0 : Forall event_ok (h ++ [EvLoad a cmp]) ->
-  exists s1 s' f, run_hist rn h s = Some s1 /\ run_hist rn (h ++ [EvLoad a cmp]) s = Some s' /\
+Corollary history_vs_fresh h a cmp rs s s0 : Forall event_ok (h ++ [EvLoad a cmp]) ->
+  exists s1 s' f, run_hist rn h s = Some s1 /\ run_hist rn (h ++ EvLoad a cmp :: reads rs) s = Some s' /\
     run_hist rn [EvLoad a cmp] s0 = Some f /\
     ((forall q, ~ In q pops -> ~ In q (map fst a) -> vals s1 q = vals s0 q) -> forall n, get s' n = get f n).
 Proof.
   intros Hh. assert (H0 : Forall event_ok ([] ++ [EvLoad a cmp])).
   { apply Forall_app in Hh. now destruct Hh. }
-  destruct (history_independent h _ s [] _ s0 Hh H0) as (m1 & m2 & f1 & f2 & A1 & A2 & B1 & B2 & Hind).
+  destruct (history_independent h _ rs s [] _ [] s0 Hh eq_refl H0 eq_refl) as (m1 & m2 & f1 & f2 & A1 & A2 & B1 & B2 & Hind).
   cbn in A2. injection A2 as <-. exists m1, f1, f2. split; [exact A1|]. split; [exact B1|]. split; [exact B2|].
   intros Hq. apply Hind. intros q Hn. cbn. apply updl_agree.
   destruct (in_dec string_dec q (map fst a)) as [Hk|Hk]; [now left | right; now apply Hq].
@@ -299,7 +330,7 @@ End Runner.
 (** the scripts of Io/History.v themselves *)
 Lemma run_event_sim s e : event_ok e ->
   exists x y, run_event pops s e = Some x /\ run_event pops s e = Some y /\ forall m, vals x m = vals y m.
-Proof. intros Hok. destruct (event_vals e s Hok) as (y & Hy & _). exists y, y. now repeat split. Qed.
+Proof. intros Hok. destruct (event_total e s Hok) as (y & Hy). exists y, y. now repeat split. Qed.
 
 End Proofs.
 
@@ -312,7 +343,7 @@ Module ToyHistory.
   (** load(7) ; a fit whose iterations leave log_v0_mean = 5 and log_v0 = 3 ; load_parameters(9) comparing v0 *)
   Definition h3 : list ev :=
     [EvLoad [("log_v0_mean", 7)] []; EvFit (fun s => set "log_v0" 3 (set "log_v0_mean" 5 s));
-     EvLoad [("log_v0_mean", 9)] ["v0"]].
+     EvLoad [("log_v0_mean", 9)] ["v0"]; EvRead ["v0"]].
 
   Example history_runs :
     exists s1 s2 s3,
@@ -328,7 +359,7 @@ Module ToyHistory.
   Proof.
     assert (L : forall n, params_ok V indep ["log_v0"] [("log_v0_mean", n)]).
     { intros n p v [H|[]]. injection H as <- <-. split; [reflexivity|]. intros [H|[]]. discriminate. }
-    constructor; [apply L|]. constructor; [exact I|]. constructor; [apply L|]. constructor.
+    constructor; [apply L|]. constructor; [exact I|]. constructor; [apply L|]. constructor; [exact I|]. constructor.
   Qed.
 
   (** the same statements with the reset guarded by "only if the population variables are not all set":
